@@ -333,8 +333,8 @@ func ruleNotFound(c *core.Ctx) {
 		}
 		c.Check(bad == "", rule, key, fn.Pos(), "unknown "+what+" ⇒ SendError", bad)
 	}
-	servicesF := c.Field("bus", "Router", "services")
-	boxesF := c.Field("bus", "serviceImpl", "boxes")
+	servicesF := fld(c, "bus", "Router", "services")
+	boxesF := fld(c, "bus", "serviceImpl", "boxes")
 	lookupGuard := func(fld *types.Var) func(fn *ssa.Function) (ssa.Instruction, core.EdgeMatcher) {
 		return func(fn *ssa.Function) (ssa.Instruction, core.EdgeMatcher) {
 			for _, lk := range mapLookups(fn, fld) {
@@ -388,7 +388,15 @@ func ruleRemovalKeys(c *core.Ctx) {
 		{"bus/directory", "serviceDirectory", "UnregisterService", "staging", "serviceDirectory"},
 	} {
 		fn := c.Func(s.rel, s.recv, s.name)
-		fld := c.Field(s.rel, s.owner, s.field)
+		fld := fld(c, s.rel, s.owner, s.field)
+		if s.owner == "serviceDirectory" {
+			_, stg, svc, _ := directoryFields(c)
+			if s.field == "staging" {
+				fld = stg
+			} else {
+				fld = svc
+			}
+		}
 		key := fmt.Sprintf("%s.%s.%s/%s", s.rel, s.recv, s.name, s.field)
 		if fn == nil || fld == nil {
 			c.Undecided(rule, key, token.NoPos, "anchor not found")
